@@ -23,6 +23,26 @@ def derives(t, pname):
     return data_derives(t, pname)
 
 
+def axis_param(t):
+    """name of the *_dim parameter an axis expression stands for: the parameter itself, or the i-th result of the
+    normalising generator `(d % ndim - ndim for d in (sensor_dim, source_dim, time_dim))`"""
+    t = strip_views(t)
+    if t.op == 'param':
+        return t.args[0]
+    if t.op == 'unpack':
+        src = strip_views(t.args[0])
+        if src.op == 'comp' and len(src.args[2]) == 1:
+            it = strip_views(src.args[2][0])
+            if it.op in ('tuple', 'list') and t.args[1] < len(it.args[0]):
+                e = strip_views(it.args[0][t.args[1]])
+                if e.op == 'param':
+                    return e.args[0]
+    if t.op == 'binop':
+        names = {axis_param(x) for x in (t.args[1], t.args[2])} - {None}
+        return names.pop() if len(names) == 1 else None
+    return None
+
+
 def check(run):
     A = run.A
     run.explanation = (
@@ -85,7 +105,7 @@ def check(run):
                 ax = call_arg(sm, 1, 'axis')
                 kd = const_val(call_arg(sm, None, 'keepdims'))
                 flv = const_val(fl)
-                ok = ax is not None and derives(ax, 'time_dim') and kd is True and flv is not NOVAL and isinstance(flv, (int, float)) and flv > 0 \
+                ok = ax is not None and axis_param(ax) == 'time_dim' and kd is True and flv is not NOVAL and isinstance(flv, (int, float)) and flv > 0 \
                     and call_arg(sm, 0) is e.term.args[1]
         run.check(ok, 'R-AXIS', 'PSD: mask normalised by its floored sum over the time axis', fn.loc(e.node), '', why, construct=f'R-AXIS::{Q}::mask-normalisation')
         guard_ok = any(strip_views(c).op == 'param' and strip_views(c).args[0] == 'normalize' and pol for c, pol in e.guards)
@@ -106,7 +126,7 @@ def check(run):
     for e in rolls:
         ok1 = False
         for c, pol in e.guards:
-            if c.op == 'cmp' and c.args[0] == 'Lt' and derives(c.args[1], 'source_dim') and const_val(c.args[2]) == -2 and pol:
+            if c.op == 'cmp' and c.args[0] == 'Lt' and axis_param(c.args[1]) == 'source_dim' and const_val(c.args[2]) == -2 and pol:
                 ok1 = True
         okr = okr and ok1 and const_val(call_arg(e.term, 1)) == -3
     run.check(okr, 'R-ROLE', 'PSD: source axis moved to the front only when source_dim < -2', fn.loc(), '', 'rollaxis of the source axis (-3) is not guarded by `source_dim < -2`',
